@@ -72,6 +72,7 @@ type nw struct {
 	prevBind   map[string]string // podID/family -> "eni|ip" (bindings before the current transition)
 	prevKnown  map[string][2]int // interface -> addresses {v4, v6} the Node CR recorded before the current transition
 	prevCloud  map[string][2]int // interface -> addresses {v4, v6} the cloud held before the current transition
+	prevOwned  map[string][][3]string // interface -> {podID, podUID, address} bound in the Node CR before the current transition
 	logMark    int
 	noDaemon   bool
 	xformed    bool
@@ -146,6 +147,19 @@ func (w *nw) pod(i int) *corev1.Pod {
 	return p
 }
 
+// podInstanceExists: the pod object podID (ns/name) exists and, when the record carries a UID, it is that instance.
+func (w *nw) podInstanceExists(podID, uid string) bool {
+	f := strings.SplitN(podID, "/", 2)
+	if len(f) != 2 {
+		return false
+	}
+	p := &corev1.Pod{}
+	if err := w.c.Get(context.Background(), client.ObjectKey{Namespace: f[0], Name: f[1]}, p); err != nil {
+		return false
+	}
+	return uid == "" || string(p.UID) == uid
+}
+
 // bindings: podID -> family -> "eni|ip"
 func nwBindings(n *networkv1beta1.Node) map[string]string {
 	out := map[string]string{}
@@ -200,6 +214,18 @@ func (w *nw) Apply(x *vrt.Exec, evn string) {
 	if before != nil {
 		for id, e := range before.Status.NetworkInterfaces {
 			w.prevKnown[id] = [2]int{len(e.IPv4), len(e.IPv6)}
+		}
+	}
+	w.prevOwned = map[string][][3]string{}
+	if before != nil {
+		for id, e := range before.Status.NetworkInterfaces {
+			for _, m := range []map[string]*networkv1beta1.IP{e.IPv4, e.IPv6} {
+				for ip, v := range m {
+					if v != nil && v.PodID != "" {
+						w.prevOwned[id] = append(w.prevOwned[id], [3]string{v.PodID, v.PodUID, ip})
+					}
+				}
+			}
 		}
 	}
 	w.prevCloud = map[string][2]int{}
@@ -659,6 +685,20 @@ func (w *nw) checkC08Calls(x *vrt.Exec) {
 			if c.Fault == "after" {
 				lostReply[c.ENI] = true
 			}
+			// trimming and release only ever touch what no pod owns: an address the record bound to a pod instance that
+			// still exists (same UID) when the transition began is neither unassigned nor loses its interface
+			for _, o := range w.prevOwned[c.ENI] {
+				if !w.podInstanceExists(o[0], o[1]) {
+					continue
+				}
+				hit := c.Op == "Detach" || c.Op == "Delete"
+				for _, a := range c.IPs {
+					hit = hit || a == o[2]
+				}
+				if hit {
+					x.Failf("C08/released-address-owned-by-existing-pod", "%s while %s was bound to pod %s (uid %s), which still exists; %s", c.String(), o[2], o[0], o[1], hist)
+				}
+			}
 		case "Create":
 			if c.N4 > w.cfg.PerAdapter || c.N6 > w.cfg.PerAdapter {
 				x.Failf("C08/create-over-per-adapter-limit", "%s asks for more than %d addresses; %s", c.String(), w.cfg.PerAdapter, hist)
@@ -803,6 +843,7 @@ func (w *nw) closureC08(x *vrt.Exec, hist []string, afterFault bool) {
 	vrt.Advance(21 * time.Minute)
 	for i := 0; i < 4; i++ {
 		w.Apply(&vrt.Exec{}, "reconcile")
+		w.checkC08Calls(x)
 		vrt.Advance(61 * time.Second)
 	}
 	n = w.node()
